@@ -317,6 +317,44 @@ mod value_tree {
     }
 }
 
+/// C05: "trailing-field elision, null-for-default": a composite whose defaulted fields are elided (or sent as null) decodes to the value the
+/// SPECIFICATION gives those fields (AMQP 1.0 part 2 / part 3 field tables) -- the expected values are written out here, not taken from `Default`
+mod spec_defaults {
+    use fe2o3_amqp::types::{definitions::{ReceiverSettleMode, SenderSettleMode}, messaging::{Header, Source, Target, TerminusDurability, TerminusExpiryPolicy},
+        performatives::{Attach, Begin, Detach, Disposition, Flow, Open, Transfer}};
+    use serde_amqp::from_slice;
+    pub fn all(tried: &mut u64) -> Option<String> {
+        macro_rules! dec { ($t:ty, $b:expr) => { { *tried += 1; match from_slice::<$t>(&$b) { Ok(v) => v, Err(e) => return Some(format!("{} from {:02x?} does not decode: {:?}", stringify!($t), $b, e)) } } } }
+        macro_rules! chk { ($what:expr, $got:expr, $want:expr) => { if $got != $want { return Some(format!("{}: decoded {:?}, the specification's default is {:?}", $what, $got, $want)); } } }
+        for (how, b) in [("all fields elided (list0)", vec![0x00u8, 0x53, 0x70, 0x45]), ("all fields null", vec![0x00, 0x53, 0x70, 0xc0, 0x06, 0x05, 0x40, 0x40, 0x40, 0x40, 0x40]), ("empty list8", vec![0x00, 0x53, 0x70, 0xc0, 0x01, 0x00])] {
+            let h = dec!(Header, b);
+            chk!(format!("header.durable, {}", how), h.durable, false); chk!(format!("header.priority, {}", how), h.priority.0, 4u8); chk!(format!("header.ttl, {}", how), h.ttl.is_none(), true);
+            chk!(format!("header.first-acquirer, {}", how), h.first_acquirer, false); chk!(format!("header.delivery-count, {}", how), h.delivery_count, 0u32);
+        }
+        let o = dec!(Open, [0x00u8, 0x53, 0x10, 0xc0, 0x03, 0x01, 0xa1, 0x00]);
+        chk!("open.max-frame-size elided", o.max_frame_size.0, 4294967295u32); chk!("open.channel-max elided", o.channel_max.0, 65535u16); chk!("open.idle-time-out elided", o.idle_time_out.is_none(), true);
+        let b = dec!(Begin, [0x00u8, 0x53, 0x11, 0xc0, 0x05, 0x04, 0x40, 0x43, 0x43, 0x43]);
+        chk!("begin.handle-max elided", b.handle_max.0, 4294967295u32);
+        let a = dec!(Attach, [0x00u8, 0x53, 0x12, 0xc0, 0x07, 0x03, 0xa1, 0x01, 0x6e, 0x43, 0x42]);
+        chk!("attach.snd-settle-mode elided", a.snd_settle_mode, SenderSettleMode::Mixed); chk!("attach.rcv-settle-mode elided", a.rcv_settle_mode, ReceiverSettleMode::First);
+        chk!("attach.incomplete-unsettled elided", a.incomplete_unsettled, false);
+        let f = dec!(Flow, [0x00u8, 0x53, 0x13, 0xc0, 0x05, 0x04, 0x40, 0x43, 0x43, 0x43]);
+        chk!("flow.drain elided", f.drain, false); chk!("flow.echo elided", f.echo, false);
+        let t = dec!(Transfer, [0x00u8, 0x53, 0x14, 0xc0, 0x02, 0x01, 0x43]);
+        chk!("transfer.more elided", t.more, false); chk!("transfer.aborted elided", t.aborted, false); chk!("transfer.batchable elided", t.batchable, false); chk!("transfer.resume elided", t.resume, false);
+        chk!("transfer.settled elided", t.settled.is_none(), true);
+        let d = dec!(Disposition, [0x00u8, 0x53, 0x15, 0xc0, 0x03, 0x02, 0x41, 0x43]);
+        chk!("disposition.settled elided", d.settled, false); chk!("disposition.batchable elided", d.batchable, false);
+        let d = dec!(Detach, [0x00u8, 0x53, 0x16, 0xc0, 0x02, 0x01, 0x43]);
+        chk!("detach.closed elided", d.closed, false);
+        let s = dec!(Source, [0x00u8, 0x53, 0x28, 0x45]);
+        chk!("source.durable elided", s.durable, TerminusDurability::None); chk!("source.expiry-policy elided", s.expiry_policy, TerminusExpiryPolicy::SessionEnd); chk!("source.timeout elided", s.timeout, 0u32); chk!("source.dynamic elided", s.dynamic, false);
+        let t = dec!(Target, [0x00u8, 0x53, 0x29, 0x45]);
+        chk!("target.durable elided", t.durable, TerminusDurability::None); chk!("target.expiry-policy elided", t.expiry_policy, TerminusExpiryPolicy::SessionEnd); chk!("target.timeout elided", t.timeout, 0u32); chk!("target.dynamic elided", t.dynamic, false);
+        None
+    }
+}
+
 fn main() {
     let args: Vec<String> = std::env::args().collect();
     if args.len() < 2 { eprintln!("usage: verif-falsify <family> [seed]"); std::process::exit(2); }
@@ -360,6 +398,7 @@ fn main() {
         "C03.array-of-described" => { found = value_rt::all(1, &mut tried); }
         "C03.array-of-zero-width" => { found = value_rt::all(2, &mut tried); }
         "C20.size-composites" => { found = size_composites::all(&mut tried); }
+        "C05.spec-defaults" => { found = spec_defaults::all(&mut tried); }
         "C20.value-tree-plain" => { found = value_tree::all(0, &mut tried); }
         "C20.value-tree-described" => { found = value_tree::all(1, &mut tried); }
         "C20.value-tree-untyped" => { found = value_tree::all(2, &mut tried); }
